@@ -1,7 +1,7 @@
 """C06 — RPC message codec is exact, total and strict (structural clauses)."""
 import re
 
-from analysis import (Prov, Guards, fmt, fmt_short, walk, roots, short, comparison, find_calls, callee_matches,
+from analysis import (Prov, Guards, fmt, fmt_short, walk, roots, short, canon, lossy_casts, comparison, find_calls, callee_matches,
                       must_pass, const_int_of, writes_into, _lin_add)
 from aff import Aff, Fact
 from facts import AnchorError, strip_closure
@@ -108,7 +108,7 @@ def cls(ty):
 def r1_r2_r3(ctx):
     facts = ctx.facts
     r1 = Rule("C06.R1", "uniform strictness of the six decode arms", floor=25, engine="A-sib + A-dom")
-    r2 = Rule("C06.R2", "field validation: id length, distances, IP length, port, records", floor=5, engine="A-dom + A-aff")
+    r2 = Rule("C06.R2", "field validation: id length, distances, IP length, port, records", floor=7, engine="A-dom + A-aff")
     r3 = Rule("C06.R3", "writer / reader tables agree: message types and ordered RLP item classes", floor=7, engine="A-sib")
     b = facts.one(re.escape(R + "Message::decode"))
     for r_ in (r1, r2, r3):
@@ -264,11 +264,21 @@ def r1_r2_r3(ctx):
     r2.check(okk, "RequestId::decode: Ok only for at most 8 bytes (and 8 is accepted)", "request-id|length", "RequestId::decode accepts ids longer than 8 bytes (or rejects legal ones)", loc=rid.loc(rid.line))
     for blk, (variant, bodies, arm, line) in sorted(sites.items()):
         if "RequestBody::FindNode" in bodies:
+            # the distances stored in the message
+            stored = None
+            for s_ in b.blocks[blk].stmts:
+                pass
+            for bb in b.blocks:
+                for s_ in bb.stmts:
+                    if s_.k == "a" and s_.rv.k == "agg" and str(s_.rv.j.get("def")).endswith("rpc::RequestBody") and s_.rv.j.get("variant") == "FindNode" and bb.idx in b.live_blocks():
+                        stored = canon(p.operand(s_.rv.ops[0]))
+            if stored is None:
+                raise AnchorError("Message::decode: RequestBody::FindNode construction not found")
             bad = []
             ok_edge = []
             for bi, t, e in g.switches():
                 c = comparison(e)
-                if c and c[0] in (">", "<=") and const_int_of(c[2]) == 256 and "Iterator>::next" in fmt_short(c[1]):
+                if c and c[0] in (">", "<=") and const_int_of(c[2]) == 256 and is_element_of(canon(c[1]), stored):
                     f, tr = g.bool_edges(bi)
                     bad.append(tr if c[0] == ">" else f)
                     ok_edge.append((bi, f if c[0] == ">" else tr))
@@ -291,6 +301,19 @@ def r1_r2_r3(ctx):
                     port_ok += [(bi, tb) for v, tb in t.vals if names.get(v) == "Ok"]
             r = b.reachable(0, removed_edges=port_ok)
             r2.check(bool(port_ok) and blk not in r, "PONG: only past Ok(NonZeroU16::try_from(port))", "pong|port", "Message::decode can accept a PONG with port 0", loc=b.loc(line))
+            # the port stored is the checked value itself: Ok payload of try_into applied to the decoded u16, no cast in between
+            pstored = None
+            for bb in b.blocks:
+                for s_ in bb.stmts:
+                    if s_.k == "a" and s_.rv.k == "agg" and str(s_.rv.j.get("def")).endswith("rpc::ResponseBody") and s_.rv.j.get("variant") == "Pong" and bb.idx in b.live_blocks():
+                        pstored = canon(p.operand(s_.rv.ops[s_.rv.j["fields"].index("port")]))
+            okp = pstored is not None and pstored[0] == "field" and pstored[1][0] == "as" and pstored[1][2] == "Ok" and pstored[1][1][0] == "call" and \
+                short(pstored[1][1][1]).endswith("TryInto>::try_into") and not lossy_casts(pstored) and \
+                any(x[0] == "call" and re.search(r"<u16 as alloy_rlp::Decodable>::decode$", short(x[1])) for x in walk(pstored[1][1][2][0]))
+            tgt = [t.callee_full() for bi, t in b.calls() if callee_matches(t, r"TryInto>::try_into$") and bi in b.reachable(arms[arm])]
+            okp = okp and bool(tgt) and all("NonZero" in (x or "") for x in tgt)
+            r2.check(okp, "PONG: the port stored is the Ok value of the NonZeroU16 conversion of the decoded u16", "pong|port-value",
+                     "the PONG port stored is %s, not the checked non-zero conversion of the decoded port" % (fmt_short(pstored) if pstored else "?"), loc=b.loc(line))
         if "ResponseBody::Nodes" in bodies:
             appends = [(bi, t) for bi, t in b.calls() if callee_matches(t, r"vec::Vec::<.*>::(append|push)$", r"Vec::(append|push)$") and bi in b.reachable(arms[arm])]
             okk = bool(appends)
@@ -306,6 +329,20 @@ def r1_r2_r3(ctx):
     rr = b.reachable(arms["other"])
     r2.check(not any(s in rr for s in sites), "an unknown message type is rejected", "msg-type|unknown", "Message::decode can accept an unknown message type", loc=b.loc(b.line))
     return r1, r2, r3
+
+
+def is_element_of(e, collection):
+    """e is exactly `(next(iter(collection)) as Some).0`: the iterated element itself, with no cast or arithmetic applied (a truncating cast such
+    as `*d as u32` would let large values through)"""
+    if not (e[0] == "field" and e[2] == "0" and e[1][0] == "as" and e[1][2] == "Some"):
+        return False
+    nx = e[1][1]
+    if not (nx[0] == "call" and re.search(r"Iterator>::next$", short(nx[1])) and nx[2]):
+        return False
+    it = nx[2][0]
+    while it[0] == "call" and re.search(r"slice::iter$|IntoIterator>::into_iter$|Deref>::deref$", short(it[1])) and it[2]:
+        it = it[2][0]
+    return it == collection
 
 
 def callee_like(name):
